@@ -381,6 +381,40 @@ func famC16(c *hx.Ctx) []*scenario {
 			add(&scenario{name: fmt.Sprintf("w%d-slots-after-resume-k%d", w, k), w: w, react: "immediate", tokenTO: 60 * time.Millisecond, steps: steps})
 		}
 	}
+	// random mixes: window, message count and QoS, reactive mode, mode switches in mid-stream, a send failing on the
+	// first connection, session failures, reconnects with resumption — all with a peer that only acknowledges what it got
+	nrand := 40
+	if c.Thorough() {
+		nrand = 600
+	}
+	reacts := []string{"immediate", "batched", "reverse", "slow", "recstall"}
+	for r := 0; r < nrand; r++ {
+		w := 1 + c.Rng.Intn(5)
+		n := 1 + c.Rng.Intn(3*w+3)
+		steps := []step{in(connectPkt(false, nil))}
+		rc := c.Rng.Intn(3) == 0
+		for i := 0; i < n; i++ {
+			steps = append(steps, step{kind: "deq", msg: msg(i, c.Rng.Intn(3))})
+			if c.Rng.Intn(7) == 0 {
+				steps = append(steps, step{kind: "react", name: reacts[c.Rng.Intn(len(reacts))]})
+			}
+			if c.Rng.Intn(9) == 0 {
+				steps = append(steps, in(pub(100+i, c.Rng.Intn(3), false)))
+			}
+			if rc && c.Rng.Intn(n) == 0 {
+				steps = append(steps, step{kind: "inerr"}, step{kind: "reconnect", resumed: true}, in(connectPkt(false, nil)), step{kind: "drain"})
+			}
+		}
+		steps = append(steps, step{kind: "react", name: "immediate"}, step{kind: "drain"})
+		sc := &scenario{name: fmt.Sprintf("rand%d-w%d-n%d", r, w, n), w: w, react: reacts[c.Rng.Intn(4)], steps: steps}
+		switch c.Rng.Intn(6) {
+		case 0:
+			sc.failSend = map[int]map[int]bool{1: {2 + c.Rng.Intn(2*n+2): true}}
+		case 1:
+			sc.failSess = map[int]bool{1 + c.Rng.Intn(3*n+3): true}
+		}
+		add(sc)
+	}
 	// dequeue token timeout: nothing acknowledged, window full
 	add(&scenario{name: "deq-token-timeout", w: 1, tokenTO: 20 * time.Millisecond, steps: []step{in(connectPkt(false, nil)), {kind: "deq", msg: msg(1, 1)},
 		{kind: "deq", msg: msg(2, 1)}, {kind: "settle"}}})
